@@ -38,6 +38,26 @@ func init() {
 			split := prog.IdentObj(info, loop.Value)
 			var assignedVar, parentVar types.Object
 			var result types.Object
+			// "some parent of this split is known": slices.ContainsFunc(split.ParentIDs, <looks it up in knownSplits>)
+			isParentTest := func(e ast.Expr) bool {
+				call, ok := isCallToNamed(info, e, "slices", "ContainsFunc")
+				if !ok || len(call.Args) != 2 {
+					return false
+				}
+				sel, ok := ast.Unparen(call.Args[0]).(*ast.SelectorExpr)
+				if !ok || prog.SelField(info, sel) != parents || derefObj(info, sel.X) != split {
+					return false
+				}
+				lit, ok := ast.Unparen(call.Args[1]).(*ast.FuncLit)
+				return ok && exprUsesField(info, lit.Body, known)
+			}
+			inlineParentTest := false
+			inspect(loop.Body, func(nd ast.Node) bool {
+				if e, ok := nd.(ast.Expr); ok && isParentTest(e) {
+					inlineParentTest = true
+				}
+				return true
+			})
 			inspect(loop.Body, func(nd ast.Node) bool {
 				as, ok := nd.(*ast.AssignStmt)
 				if !ok || len(as.Rhs) != 1 {
@@ -53,12 +73,8 @@ func init() {
 					}
 				}
 				if len(as.Lhs) == 1 {
-					if call, ok := isCallToNamed(info, deref(info, as.Rhs[0]), "slices", "ContainsFunc"); ok && len(call.Args) == 2 {
-						if sel, ok := ast.Unparen(call.Args[0]).(*ast.SelectorExpr); ok && prog.SelField(info, sel) == parents && derefObj(info, sel.X) == split {
-							if lit, ok := ast.Unparen(call.Args[1]).(*ast.FuncLit); ok && exprUsesField(info, lit.Body, known) {
-								parentVar = prog.IdentObj(info, as.Lhs[0])
-							}
-						}
+					if isParentTest(deref(info, as.Rhs[0])) {
+						parentVar = prog.IdentObj(info, as.Lhs[0])
 					}
 					if call, ok := ast.Unparen(as.Rhs[0]).(*ast.CallExpr); ok {
 						if id, ok := call.Fun.(*ast.Ident); ok && id.Name == "append" {
@@ -68,16 +84,24 @@ func init() {
 				}
 				return true
 			})
-			if assignedVar == nil || parentVar == nil || result == nil {
-				r.Fail(f.Name()+":shape", loop.Pos(), nil, "AvailableSplits must test (assigned) and (some parent is known) for every split (assigned test=%v, parent test=%v)", assignedVar != nil, parentVar != nil)
+			if assignedVar == nil || (parentVar == nil && !inlineParentTest) || result == nil {
+				r.Fail(f.Name()+":shape", loop.Pos(), nil, "AvailableSplits must test (assigned) and (some parent is known) for every split (assigned test=%v, parent test=%v)", assignedVar != nil, parentVar != nil || inlineParentTest)
 				return
 			}
 			atoms := []guardAtom{
 				identAtom("assigned", func() types.Object { return assignedVar }),
 				{Name: "len(ParentIDs)==0", Match: func(c *pathsim.Ctx, e ast.Expr) (bool, bool) { return lenIsZeroExpr(c.Info, e, parents) }},
-				identAtom("hasKnownParent", func() types.Object { return parentVar }),
+				{Name: "hasKnownParent", Match: func(c *pathsim.Ctx, e ast.Expr) (bool, bool) {
+					if parentVar != nil && prog.IdentObj(c.Info, e) == parentVar {
+						return false, true
+					}
+					return false, isParentTest(ast.Unparen(e)) // the test written in the condition itself
+				}},
 			}
-			spec := &pathsim.Spec{AtomDeps: map[int][]types.Object{0: {assignedVar}, 2: {parentVar}}}
+			spec := &pathsim.Spec{AtomDeps: map[int][]types.Object{0: {assignedVar}}}
+			if parentVar != nil {
+				spec.AtomDeps[2] = []types.Object{parentVar}
+			}
 			spec.Atom = func(c *pathsim.Ctx, e ast.Expr) (int, bool, bool) {
 				for i, a := range atoms {
 					if neg, ok := a.Match(c, e); ok {
